@@ -117,7 +117,7 @@ def k1_dates(dmin: int, dmax: int, pmin: int, type_pos: int) -> bool:
         c['max'] = DATES[dmax]
     if type_pos == 2:
         c['type'] = 'date'
-    ok = _roundtrip_ok({'when': c})
+    ok = _roundtrip_ok({'when': c}, None, text=True)
     # and the loaded bounds are datetimes whatever the key order (so that they compare with the data)
     D = _load({'fields': {'when': c}})
     for k, i in (('min', dmin), ('max', dmax)):
@@ -168,6 +168,8 @@ TEXT_MENU = [
     {'type': 'int', 'min': 1, 'max': {'value': 9, 'precision': 'closed'}, 'sign': 'positive', 'max_nulls': 0},
     {'type': 'string', 'min_length': 0, 'max_length': 3, 'allowed_values': ['a"b', 'é\\', ''], 'rex': ['^a\\"$']},
     {'type': 'date', 'min': '2001-02-03', 'max': '2001-02-03 04:05:06.000700', 'max_nulls': None},
+    {'type': 'date', 'min': {'value': '2001-02-03 04:05:06', 'precision': 'closed'},
+     'max': {'value': '2002-01-01', 'precision': 'open'}},
     {'type': ['int', 'real'], 'min': {'value': -1.5, 'precision': 'fuzzy'}, 'no_duplicates': True, '#c': 1},
     {'type': 'real', 'frob': [1], 'sign': None},
 ]
